@@ -30,6 +30,8 @@ type Spec struct {
 	GrammarID   string      `json:"grammar"`
 	GrammarText string      `json:"grammar_text,omitempty"`
 	GrammarFile string      `json:"grammar_file"`          // file name, e.g. g.bnf
+	PkgFirst    bool        `json:"pkg_first,omitempty"`   // -p is written before -o on the command line
+	OutLink     string      `json:"out_link,omitempty"`    // "name->target": before the run, cwd/name is made a symbolic link to cwd/target (created)
 	CwdVia      string      `json:"cwd_via,omitempty"`     // "symlink": the working directory is entered through a symbolic link (and $PWD spells it that way)
 	GrammarDir  string      `json:"grammar_dir,omitempty"` // where the grammar file lives, relative to cwd ("" = cwd, "src", ".."); prefix "ABS:" = the argument is an absolute path
 	Flags       []string    `json:"flags"`
@@ -136,6 +138,20 @@ func (w *Worker) Exec(bin string, s *Spec, timeout time.Duration) (*Result, erro
 	os.Chtimes(gpath, fixed, fixed)
 	os.Chtimes(filepath.Join(w.Mod, "go.mod"), fixed, fixed)
 	args := append([]string{}, s.Flags...)
+	if s.OutLink != "" {
+		if name, target, ok := strings.Cut(s.OutLink, "->"); ok {
+			os.MkdirAll(filepath.Join(cwd, target), 0o755)
+			if _, err := os.Lstat(filepath.Join(cwd, name)); err != nil {
+				os.MkdirAll(filepath.Dir(filepath.Join(cwd, name)), 0o755)
+				if err := os.Symlink(filepath.Join(cwd, target), filepath.Join(cwd, name)); err != nil {
+					return nil, err
+				}
+			}
+		}
+	}
+	if s.PkgFirst && s.Pkg != "" {
+		args = append(args, "-p", s.Pkg)
+	}
 	if s.OutSpec != "" {
 		o := s.OutSpec
 		if strings.HasPrefix(o, "ABS:") {
@@ -143,7 +159,7 @@ func (w *Worker) Exec(bin string, s *Spec, timeout time.Duration) (*Result, erro
 		}
 		args = append(args, "-o", o)
 	}
-	if s.Pkg != "" {
+	if s.Pkg != "" && !s.PkgFirst {
 		args = append(args, "-p", s.Pkg)
 	}
 	args = append(args, garg)
@@ -230,8 +246,8 @@ func (w *Worker) Exec(bin string, s *Spec, timeout time.Duration) (*Result, erro
 			return err
 		}
 		rel, _ := filepath.Rel(w.Mod, p)
-		if d.IsDir() {
-			return nil
+		if d.IsDir() || d.Type()&fs.ModeSymlink != 0 {
+			return nil // (what was written through a symbolic link is found at its real place)
 		}
 		if rel == "go.mod" || p == gpath {
 			return nil
